@@ -121,6 +121,8 @@ class Rewriter:
         self.written = []
         self.results = []
         self.ca_cols = []
+        self.row_masks = {}       # local name -> lookup name of a "rows that were calculated" mask
+        self.res_masks = []       # (result column, lookup name | "all")
 
     # ---- classification helpers
     def is_pit(self, n):
@@ -271,6 +273,13 @@ class Rewriter:
 
     def droppable_assign(self, s):
         t, v = s.targets[0], s.value
+        # active = get_lookup(net, "branch", "active_<mode>")[f:t] : mask of the element's rows that were calculated
+        if is_name(t) and isinstance(v, ast.Subscript) and ft_slice(v.slice) and is_call(v.value, "get_lookup") and \
+                len(v.value.args) == 3 and is_name(v.value.args[0], "net") and \
+                all(isinstance(a, ast.Constant) for a in v.value.args[1:]) and v.value.args[1].value == "branch" and \
+                str(v.value.args[2].value).startswith("active_") and not v.value.keywords:
+            self.row_masks[t.id] = v.value.args[2].value
+            return True
         if isinstance(t, ast.Tuple) and [e.id for e in t.elts if is_name(e)] == ["f", "t"] and \
                 isinstance(v, ast.Subscript) and is_name(v.value) and v.value.id in ("idx_lookups", "branch_lookups"):
             return True
@@ -292,8 +301,9 @@ class Rewriter:
         return False
 
     def res_target(self, t):
-        """res_table['x'].values[:]  -> 'x'"""
-        if isinstance(t, ast.Subscript) and full_slice(t.slice) and isinstance(t.value, ast.Attribute) and \
+        """res_table['x'].values[:] | res_table['x'].values[<calculated-rows mask>]  -> 'x'"""
+        if isinstance(t, ast.Subscript) and (full_slice(t.slice) or (is_name(t.slice) and t.slice.id in self.row_masks)) \
+                and isinstance(t.value, ast.Attribute) and \
                 t.value.attr == "values" and isinstance(t.value.value, ast.Subscript) and \
                 is_name(t.value.value.value, "res_table") and isinstance(t.value.value.slice, ast.Constant):
             return t.value.value.slice.value
@@ -360,8 +370,18 @@ class Rewriter:
                     if "res_" + rn in self.results:
                         fail(s, "result column written twice")
                     self.results.append("res_" + rn)
+                    val = s.value
+                    if is_name(t.slice):
+                        # written only on the calculated rows: the value must be compressed by the same mask; the
+                        # translated output is the value written on those rows
+                        if not (isinstance(val, ast.Subscript) and is_name(val.slice, t.slice.id)):
+                            fail(s, "masked result store whose value is not compressed by the same mask")
+                        val = val.value
+                        self.res_masks.append((rn, self.row_masks[t.slice.id]))
+                    else:
+                        self.res_masks.append((rn, "all"))
                     out.append(ast.copy_location(ast.Assign(targets=[ast.Name(id="res_" + rn, ctx=ast.Store())],
-                                                            value=self.ex(s.value)), s))
+                                                            value=self.ex(val)), s))
                     continue
                 ps = self.pit_sub(t)
                 if ps:
@@ -686,8 +706,12 @@ HC_METHODS = [("adaption_before_derivatives_hydraulic", "hc_bh"), ("adaption_aft
 CP_METHODS = [("adaption_after_derivatives_thermal", "cp_at"), ("extract_results", "cp_res")]
 
 
+RES_MASKS = []
+
+
 def hook_kernels():
     syn_props()
+    del RES_MASKS[:]
     ks = []
     over = {"get_branch_cp": ("func", SYN + "props.py", "get_branch_cp")}
     for rel, cname, methods, syn in ((HC, "HeatConsumer", HC_METHODS, "hc.py"), (CP, "CirculationPump", CP_METHODS, "cp.py")):
@@ -696,6 +720,7 @@ def hook_kernels():
             f, kinds, outs, rw = normalise_method(rel, cname, mname, short)
             funcs.append(f)
             specs.append((short, kinds, outs))
+            RES_MASKS.extend((short, c, m) for c, m in rw.res_masks)
         register(syn, rel, funcs, over)
         for short, kinds, outs in specs:
             ks.append(kernels.translate(SYN + syn, short, kinds, name=short,
@@ -793,6 +818,9 @@ def gen_hooks():
              "(* consumer_array column <- table column *)",
              "Definition hc_array_cols : list (string * given) := [%s]." %
              "; ".join("(%s, %s)" % (cstr(k), gname[v]) for k, v in sorted(colmap.items())),
+             "(* result columns written by extract_results: (hook, column, rows written: all | lookup of calculated rows) *)",
+             "Definition res_rows_written : list (string * string * string) := [%s]." %
+             "; ".join("(%s, %s, %s)" % (cstr(h), cstr(c), cstr(m)) for h, c, m in RES_MASKS),
              "(* HeatExchanger.create_pit_branch_entries: pit column <- expression (source text) *)",
              "Definition hex_pit_wiring : list (string * string) := [%s]." %
              "; ".join("(%s, %s)" % (cstr(c), cstr(r)) for c, r in hexw), ""]
